@@ -198,7 +198,7 @@ theorem executeGroups_notRaised (s : SchemaD) (w : World) (execSub : String → 
 theorem executeFields_raised (s : SchemaD) (doc : Doc) (vars : Vars) (w : World) (cf fuel : Nat) (parent : String) (path : Path)
     (sels : List Sel) (k : ErrKind) (l : Option (List Nat)) (inner : List Err)
     (h : executeFields s doc vars w cf fuel parent path sels = .error (.raised k l inner)) :
-    k = .directive ∧ l = some [] ∧ inner = [] ∧ ∃ cf', collectFields s doc vars cf' parent sels [] = .error (.internal "CoercionError") := by
+    k = .directive ∧ l = some [] ∧ inner = [] ∧ collectFields s doc vars cf parent sels [] = .error (.internal "CoercionError") := by
   cases fuel with
   | zero => simp [executeFields] at h
   | succ n =>
@@ -210,7 +210,7 @@ theorem executeFields_raised (s : SchemaD) (doc : Doc) (vars : Vars) (w : World)
       | internal c =>
         rw [Fail.directive_internal] at h
         split at h
-        · rename_i hc; subst hc; simp at h; exact ⟨h.1.symm, h.2.1.symm, h.2.2, cf, h1⟩
+        · rename_i hc; subst hc; simp at h; exact ⟨h.1.symm, h.2.1.symm, h.2.2, rfl⟩
         · simp at h
       | outOfFuel => simp at h
       | unsupported => simp at h
